@@ -62,6 +62,16 @@ FM_INVALID = ["---\njust some text\n---\n", "---\nk: v\n", "---\n\nk: v\n---\n",
               "---\n42\n---\n", "---\ntrue\n---\n", "---\n- a\n- b\n---\n", "---\n[]\n---\n", "---\n3.5\n---\n"]
 
 
+# (5) history family (cases HS:i): an extension enabled with its defaults must parse a document the same way before and
+# after a run in the same process that configured it differently (multi-entry settings, no-op entries first)
+HS_SETTINGS = [
+    ("dr", {"change_tag_names": "+script,+div"}), ("dr", {"change_tag_names": "+title,-script,+span"}), ("dr", {"change_tag_names": "-script,-title"}),
+    ("dr", {"change_tag_names": "+div"}), ("dr", {"change_tag_names": "+style,+style,+b"}), ("dr", {"change_tag_names": "-xmp,+xmp,+textarea,-textarea,+p"}),
+]
+HS_DOCS = ["<div>x</div>\n\ntext <div> <span> <b>\n", "<script>x</script>\n\n<title>t</title> a <span> <p>\n", "<style>\n</style>\n\ntext <b>x</b> <textarea> <xmp>\n"]
+N_HS = len(HS_SETTINGS) * len(HS_DOCS)
+
+
 def universe_hash():
     return PL.hash_ab()
 
@@ -75,7 +85,7 @@ def plan(tier, seed, complete=False):
         r = R(mix("C20", seed))
         idx = sorted(set(r.sample(N_Z1, 1200)) | {N_Z1 + k for k in r.sample(N_Z3, 2000)} | {N_Z1 + N_Z3 + k for k in r.sample(N_SPRAY + N_Z2 + N_Z5, 6000)})
     return {
-        "items": [f"X:{i}" for i in idx] + [f"CF:{i}" for i in range(N_CF)],
+        "items": [f"X:{i}" for i in idx] + [f"CF:{i}" for i in range(N_CF)] + [f"HS:{i}" for i in range(N_HS)],
         "zones": {"corpus": {"universe": N_Z1}, "calm trees": {"universe": N_Z3}, "extension-syntax spray": {"universe": N_SPRAY}, "run": {"cases": len(idx)}},
         "exhaustive": False,
         "rule": "documents (raw corpus, calm trees, calm trees sprayed with every extension's syntax, front-matter blocks valid/invalid prepended by index) x "
@@ -84,12 +94,16 @@ def plan(tier, seed, complete=False):
 
 
 def witness_item(k):
+    if str(k["witness"].get("case", "")).startswith("HS:"):
+        return {"key": "W:" + k["id"], "hs": int(k["witness"]["case"].split(":")[1])}
     if str(k["witness"].get("case", "")).startswith("CF:"):
         return {"key": "W:" + k["id"], "cf": int(k["witness"]["case"].split(":")[1])}
     return {"key": "W:" + k["id"], "doc": k["witness"]["doc"], "fm": k["witness"].get("fm")}
 
 
 def replay_item(rp):
+    if str(rp["case"]).startswith("HS:"):
+        return {"key": str(rp["case"]), "hs": int(str(rp["case"]).split(":")[1])}
     if str(rp["case"]).startswith("CF:"):
         return {"key": str(rp["case"]), "cf": int(str(rp["case"]).split(":")[1])}
     return {"key": str(rp["case"]), "doc": rp["detail"]["doc"], "fm": rp["detail"].get("fm")}
@@ -149,6 +163,9 @@ def run_items(items, job):
     T_all = pm.make_tokenizer(pm.ext_config(set(pm.EXTENSIONS)))
     R = PL.Result()
     for it in items:
+        if (isinstance(it, str) and it.startswith("HS:")) or (isinstance(it, dict) and it.get("hs") is not None):
+            _run_history(pm, R, it if isinstance(it, str) else it["key"], int(it.split(":")[1]) if isinstance(it, str) else int(it["hs"]))
+            continue
         if (isinstance(it, str) and it.startswith("CF:")) or (isinstance(it, dict) and it.get("cf") is not None):
             _run_leftover(pm, R, it if isinstance(it, str) else it["key"], int(it.split(":")[1]) if isinstance(it, str) else int(it["cf"]))
             continue
@@ -304,3 +321,47 @@ def _run_leftover(pm, R, key, ci):
     R.distinct.add(PL.mix("CF", ci) & 0xFFFFFFFFFFFF)
     if v:
         R.viol.append([key, ";".join(sorted(v)), detail])
+
+
+def _run_history(pm, R, key, ci):
+    """(5): default-enabled run, then a run with other settings, then the default-enabled run again: first == third."""
+    from pymarkdown.api import PyMarkdownApi, PyMarkdownApiException
+
+    ext, settings = HS_SETTINGS[ci % len(HS_SETTINGS)]
+    doc = HS_DOCS[ci // len(HS_SETTINGS)]
+    name = pm.EXTENSIONS[ext]
+    R.evals += 1
+    detail = {"case": f"HS:{ci}", "doc": doc, "extension": name, "settings_of_the_run_in_between": settings}
+
+    def observe(extra):
+        cfg = pm.ext_config({ext})
+        cfg["extensions"][name].update(extra)
+        try:
+            s, h, _ = _ser(pm, pm.make_tokenizer(cfg), doc)
+        except Exception as e:  # noqa: BLE001
+            s, h = "ERR:" + type(e).__name__, None
+        a = PyMarkdownApi().log_critical_and_above().set_boolean_property(f"extensions.{name}.enabled", True)
+        for sk, sv in extra.items():
+            a = a.set_string_property(f"extensions.{name}.{sk}", sv)
+        try:
+            from vf import app as _app
+
+            r = _app.guarded(lambda: a.scan_string(doc))
+            f = sorted((x.line_number, x.column_number, x.rule_id) for x in r.scan_failures)
+        except PyMarkdownApiException as e:
+            f = "EXC:" + str(e)[:120]
+        except Exception as e:  # noqa: BLE001
+            f = "ERR:" + type(e).__name__
+        return s, h, f
+
+    first = observe({})
+    between = observe(settings)
+    third = observe({})
+    R.count("history_comparisons")
+    R.count("documents")
+    R.distinct.add(PL.mix("HS", ci) & 0xFFFFFFFFFFFF)
+    if between != first:
+        R.count("history_runs_in_between_that_differ_from_default")
+    if third != first:
+        detail["first"], detail["third"] = [str(x)[:300] for x in first], [str(x)[:300] for x in third]
+        R.viol.append([key, "extension-settings-of-an-earlier-run-leak:" + ext, detail])
